@@ -7,9 +7,9 @@ cd "$WT"
 test -s OUT/patch.diff
 echo "== tests with change"; PYTHONPATH=$WT/src /venv/bin/python -m pytest -q -p no:cacheprovider --timeout=900 2>&1 | grep -E "passed|failed" | tail -1
 echo "== demo with change (must fail)"; if PYTHONPATH=$WT/src /venv/bin/python OUT/demo.py >/tmp/demo_with.log 2>&1; then echo "DEMO PASSED WITH CHANGE (bad)"; else echo "fails: $(tail -1 /tmp/demo_with.log)"; fi
-git stash -q
+git apply -R OUT/patch.diff
 echo "== demo without change (must pass)"; if PYTHONPATH=$WT/src /venv/bin/python OUT/demo.py >/tmp/demo_without.log 2>&1; then echo "passes"; else echo "DEMO FAILS WITHOUT CHANGE (bad): $(tail -1 /tmp/demo_without.log)"; fi
-git stash pop -q
+git apply OUT/patch.diff
 mkdir -p /verif/seeded/$NAME
 cp OUT/patch.diff OUT/demo.py /verif/seeded/$NAME/
 cp OUT/meta.json /verif/seeded/$NAME/meta.agent.json 2>/dev/null || true
